@@ -4,3 +4,4 @@ import DefconModel.Drivers.GlyphOrder
 import DefconModel.Drivers.Kern
 import DefconModel.Drivers.NameSort
 import DefconModel.Drivers.Persist
+import DefconModel.Drivers.Classes
